@@ -55,6 +55,16 @@ def normaliser(prog: Program, f: FuncInfo, inline_locals: bool = True, extra_env
         env.update(extra_env)
     nrm = Normaliser(lambda d: prog.qualify(f.module, d), env, f.self_name, inliner=_make_inliner(prog, f, 0) if inline_helpers else None)
     nrm.records = record_classes(prog)
+
+    def signature(call: ast.Call) -> list[str] | None:
+        try:
+            ts = [t for t in prog.resolve_call(f, call) if isinstance(t, FuncInfo)]
+        except AnalysisError:
+            return None
+        if len(ts) != 1:
+            return None
+        return list(ts[0].bound_params)
+    nrm.signature = signature
     return nrm
 
 
